@@ -22,6 +22,8 @@ from core import outcome_of_value, outcome_of_exc
 from wbgen import a1
 
 NAME = 'loadsim'
+# probes that count as injected disturbances (reported under faults_fired in the evidence)
+FAULT_PROBES = ('clock_stepped_backward', 'foreign_tool_left_cache_entry', 'rewrite_inside_one_timestamp_quantum_cache_entry_still_matches', 'pycache_directory_blocked', 'relative_path_after_chdir')
 NEEDS_REF = False
 BASE_NS = 1_718_000_000 * 10**9
 RULE = {'': 'one run = 2-4 variants of one generated workbook x a seeded history of 6-20 operations (translate+write to one of 2-3 '
@@ -98,6 +100,11 @@ def gen_plan(seed, cfg):
              'backward': r.random() < 0.3,
              'reuse_parser': r.random() < 0.5,
              'same_size': r.random() < 0.8}
+    # the process environment as history (own PRNG stream: older seeds keep their plans): output files of the
+    # same NAME in different directories, and paths spelled relative to a working directory that changes
+    re_ = core.rng(seed, 'loadsim', 'env')
+    swarm['same_basename'] = re_.random() < 0.35
+    swarm['relative'] = re_.random() < 0.35
     swarm.update(cfg.get('swarm', {}))
     base = _base_workbook(r)
     variants = [base] + [_variant(r, base, swarm['same_size'] or r.random() < 0.5) for _ in range(r.randint(1, 3))]
@@ -124,6 +131,10 @@ def gen_plan(seed, cfg):
             ops.append({'op': 'clock', 'add_ns': d})
     for p in sorted(written):
         ops.append({'op': 'load', 'path': p})
+    if swarm['relative']:
+        for op in ops:
+            if op['op'] in ('write', 'load') and re_.random() < 0.6:
+                op['rel'] = True        # chdir into the file's directory first, then name it by its bare file name
     return {'engine': NAME, 'seed': seed, 'swarm': swarm, 'variants': variants, 'n_paths': n_paths, 'ops': ops}
 
 
@@ -184,13 +195,31 @@ def run(req, ctx):
     simfs.DISK.real_hook = (scratch + os.sep, lambda f, path, mode: simfs.StampOnClose(f, path, mode, stamp))
     sys.dont_write_bytecode = not swarm['write_bytecode']
     if swarm['pycache_blocked']:
+        probe('pycache_directory_blocked')
         # importlib must silently skip caching when it cannot create __pycache__ (a FILE is in the way;
         # permissions would not stop root)
-        with simfs._real_open(os.path.join(scratch, '__pycache__'), 'w') as fh:
-            fh.write('not a directory')
+        for d_ in sorted(set([scratch] + [os.path.join(scratch, 'd%d' % j) for j in range(plan['n_paths'])] if swarm.get('same_basename') else [scratch])):
+            os.makedirs(d_, exist_ok=True)
+            with simfs._real_open(os.path.join(d_, '__pycache__'), 'w') as fh:
+                fh.write('not a directory')
     for i, v in enumerate(plan['variants']):
         simfs.DISK.put('/simfs/v%d.xlsx' % i, wbgen.build_bytes(v))
-    paths = [os.path.join(scratch, 'gen%d.py' % j) for j in range(plan['n_paths'])]
+    if swarm.get('same_basename'):
+        # same file name in different directories: d0/gen.py, d1/gen.py, ...
+        paths = [os.path.join(scratch, 'd%d' % j, 'gen.py') for j in range(plan['n_paths'])]
+    else:
+        paths = [os.path.join(scratch, 'gen%d.py' % j) for j in range(plan['n_paths'])]
+    for p_ in paths:
+        os.makedirs(os.path.dirname(p_), exist_ok=True)
+    cwd0 = os.getcwd()
+
+    def spelled(j, op):
+        """The path as the caller spells it: absolute, or (after a chdir into its directory) the bare file name."""
+        if op.get('rel'):
+            os.chdir(os.path.dirname(paths[j]))
+            probe('relative_path_after_chdir')
+            return os.path.basename(paths[j])
+        return paths[j]
     current = {}      # path index -> (variant index, returned text)
     loaded_variant = {}   # path index -> variant index at last load (for the non-trivial rule)
     parser = Parser().disable_safety_check()
@@ -225,7 +254,7 @@ def run(req, ctx):
                 prev = current.get(j)
                 try:
                     parser.set_excel_file_path('/simfs/v%d.xlsx' % op['wb'])
-                    parser.write_translation(paths[j])
+                    parser.write_translation(spelled(j, op))
                     text = parser.get_translation()
                     current[j] = (op['wb'], text)
                     out = ['ok', len(text.encode('utf-8'))]
@@ -256,7 +285,7 @@ def run(req, ctx):
                 spec = plan['variants'][wb]
                 had_cache = _pyc_header(paths[j]) is not None
                 try:
-                    ex_file = Executor().set_executed_class(class_file=paths[j])
+                    ex_file = Executor().set_executed_class(class_file=spelled(j, op))
                     got = _query_all(ex_file, spec, Cell)
                 except Exception as e:
                     got = {'load': outcome_of_exc(e)}
@@ -288,6 +317,7 @@ def run(req, ctx):
                                  'observed': {k: got.get(k) for k in diff[:3]}, 'expected': {k: want.get(k) for k in diff[:3]},
                                  'stale_cache_entry': bool(had_cache)})
     finally:
+        os.chdir(cwd0)
         sys.dont_write_bytecode = True
         simfs.DISK.real_hook = None
         shutil.rmtree(scratch, ignore_errors=True)
@@ -323,7 +353,12 @@ def shrink(plan):
                 p['ops'] = copy.deepcopy(keep)
                 yield p
         chunk //= 2
-    for k, v in (('reuse_parser', False), ('pycache_blocked', False), ('backward', False)):
+    if any(o.get('rel') for o in ops):
+        p = copy.deepcopy(plan)
+        for o in p['ops']:
+            o.pop('rel', None)
+        yield p
+    for k, v in (('reuse_parser', False), ('pycache_blocked', False), ('backward', False), ('same_basename', False)):
         if plan['swarm'].get(k) != v:
             p = copy.deepcopy(plan)
             p['swarm'][k] = v
